@@ -104,7 +104,54 @@ def cases(tier, seed):
         for i in range(max(6, n // 3)):
             out.append({"id": "unused/%s/%d" % (name, i), "kind": "unused", "det": name, "seed": [seed, 160, i],
                         "cost": 4 if name in ("PCACD", "KdqTreeStreaming", "LinearFourRates") else 1})
+    for i in range(max(6, n // 3)):
+        out.append({"id": "unused/MD3/%d" % i, "kind": "md3", "det": "MD3", "seed": [seed, 1600, i], "cost": 1})
     return out
+
+
+def run_md3(case, ctx):
+    """MD3 documents y_true / y_pred of update as unused: the protocol trace with junk in them must equal the trace without"""
+    from . import c19
+
+    rng = gen.rng_for(case["seed"], "MD3")
+    k = int(rng.choice([2, 3]))
+    cfg = dict(N=int(rng.integers(max(4, k), 16)), k=k, oracle_len=int(rng.integers(k, 6)), sensitivity=float(rng.choice([0.0, 0.5, 1.0, 2.0])),
+               noise=float(rng.choice([0.1, 0.3, 0.45])), ref_seed=int(rng.integers(0, 10 ** 6)))
+    letters = [str(c) for c in rng.choice(["U1", "U0"], size=int(rng.integers(60, 160)))]
+    labels = [str(c) for c in rng.choice(["L+", "L-"], size=len(letters) * 4)]
+    traces = []
+    for junked in (False, True):
+        r = c19.build(cfg, ctx, dict(cfg=cfg))
+        if r is None:
+            return
+        det, m = r
+        tr = []
+        li = 0
+        for i, c in enumerate(letters):
+            while det.waiting_for_oracle:
+                op, arg, lab = c19.call_args(labels[li % len(labels)], m)
+                li += 1
+                det.give_oracle_label(arg)
+                m.oracle.append(lab)
+                if len(m.oracle) == cfg["oracle_len"]:
+                    m.oracle = []
+                tr.append(c19.impl_snapshot(det))
+            op, arg, _ = c19.call_args(c, m)
+            if junked:
+                det.update(arg, y_true=junk(rng, i), y_pred=junk(rng, i + 2))
+            else:
+                det.update(arg)
+            tr.append(c19.impl_snapshot(det))
+        traces.append(tr)
+    ctx.count("unused_argument_runs_compared")
+    ctx.count("steps_compared", len(traces[0]))
+    for j, (a, b) in enumerate(zip(*traces)):
+        if not c19.snap_equal(a, b):
+            ctx.violation("C16/MD3/unused_argument", "junk in MD3.update's documented-unused y_true / y_pred changed its state at call %d: %r vs %r" % (j, b, a), cfg=cfg, step=j)
+            return
+    ctx.nontrivial = any(s[0] == "drift" for s in traces[0])
+    ctx.sample = {"kind": "unused arguments", "detector": "MD3", "cfg": cfg, "calls": len(traces[0])}
+    ctx.digest = "unused-MD3-%s" % sorted(cfg.items())
 
 
 def targets(tier):
@@ -142,6 +189,8 @@ def first_diff(a, b):
 def run_case(case, ctx):
     warnings.simplefilter("ignore")
     name = case["det"]
+    if case["kind"] == "md3":
+        return run_md3(case, ctx)
     rng = gen.rng_for(case["seed"], name, case["kind"])
     params = zoo.draw_params(name, rng)
     key = case.get("seed_key", case["id"])
